@@ -2,10 +2,19 @@
 (as JSON-able terms -> Python callables and -> Coq terms)."""
 import math
 
+class EmptyReport(Exception):
+    """a user-defined exception class whose instances are falsy (a report of offending fields that can be empty):
+    `if error:` is not `if error is not None:`"""
+    def __len__(self):
+        return 0
+
+
 EXN = {'TypeError': 1, 'ValueError': 2, 'ZeroDivisionError': 3, 'IndexError': 4, 'OverflowError': 5,
-       'RecursionError': 6, 'MemoryError': 7, 'KeyError': 8, 'AssertionError': 10, 'AttributeError': 11, 'StopIteration': 12}
+       'RecursionError': 6, 'MemoryError': 7, 'KeyError': 8, 'AssertionError': 10, 'AttributeError': 11, 'StopIteration': 12,
+       'EmptyReport': 13}
 EXN_CLS = {1: TypeError, 2: ValueError, 3: ZeroDivisionError, 4: IndexError, 5: OverflowError, 9: RuntimeError,
-           6: RecursionError, 7: MemoryError, 8: KeyError, 10: AssertionError, 11: AttributeError, 12: StopIteration}
+           6: RecursionError, 7: MemoryError, 8: KeyError, 10: AssertionError, 11: AttributeError, 12: StopIteration,
+           13: EmptyReport}
 
 
 def exn_code(e):
